@@ -86,6 +86,13 @@ class FakeB2(httpx.AsyncBaseTransport):
             if fault.get('retry_after') is not None:
                 hdrs['retry-after'] = str(fault['retry_after'])
             code = fault.get('code', 'injected')
+            if fault['status'] == 401:
+                # a 401 means the presented token is dead for good (expired / revoked), not just this request
+                tok = request.headers.get('authorization')
+                if kind == 'upload':
+                    self.upload_tokens.pop(tok, None)
+                elif tok in self.auth_tokens:
+                    self.expired.add(tok)
             return self._json(request, fault['status'], {'status': fault['status'], 'code': code, 'message': 'injected'}, hdrs)
 
         host = request.url.scheme + '://' + request.url.netloc.decode()
